@@ -88,6 +88,9 @@ class Runner:
         self.tmp = tempfile.mkdtemp(prefix='r%d_' % os.getpid(), dir=RUNDIR)
         self.lock = threading.Lock()
         self.nproc = 0
+        # a run that keeps hitting the watchdog has its verdict (hang witnesses) after a few of them: the rest is skipped
+        self.max_timeouts = int(os.environ.get('VERIF_MAX_TIMEOUTS', '6'))
+        self.n_timeouts = 0
 
     def close(self):
         shutil.rmtree(self.tmp, ignore_errors=True)
@@ -144,8 +147,15 @@ class Runner:
         else:
             groups = [cases]
         for g in groups:
+            if self.n_timeouts >= self.max_timeouts:
+                for c in g:
+                    res[c['id']] = {'case': c, 'result': None, 'rc': None, 'timeout': False, 'signal': None, 'secs': 0, 'skipped': True}
+                continue
             tmo = (self.timeout_case + 2.0 * len(g)) * timeout_scale
             out, err, rc, to, secs = self._spawn(exe, [caseline(c) for c in g], tmo, extra_env, wrapper)
+            if to:
+                with self.lock:
+                    self.n_timeouts += 1
             got = {}
             for ln in out.splitlines():
                 ln = ln.strip()
